@@ -6,8 +6,14 @@
 use crate::ensure;
 use crate::shadow;
 use crate::util::*;
-use serde::de::{self, Deserialize, DeserializeSeed, Deserializer, IntoDeserializer, MapAccess, SeqAccess, Visitor};
-use serde::ser::{self, Serialize, SerializeMap, SerializeSeq, SerializeStruct, SerializeStructVariant, SerializeTuple, SerializeTupleStruct, SerializeTupleVariant, Serializer};
+use serde::de::{
+    self, Deserialize, DeserializeSeed, Deserializer, IntoDeserializer, MapAccess, SeqAccess,
+    Visitor,
+};
+use serde::ser::{
+    self, Serialize, SerializeMap, SerializeSeq, SerializeStruct, SerializeStructVariant,
+    SerializeTuple, SerializeTupleStruct, SerializeTupleVariant, Serializer,
+};
 use std::cell::RefCell;
 use std::collections::{BTreeMap, BTreeSet};
 use std::fmt;
@@ -67,7 +73,10 @@ impl Rec {
         let mut l = self.log.borrow_mut();
         l.push(what);
         if self.fail_at != 0 && l.len() == self.fail_at {
-            return Err(SerErr(format!("injected failure at serializer call {}", l.len())));
+            return Err(SerErr(format!(
+                "injected failure at serializer call {}",
+                l.len()
+            )));
         }
         Ok(())
     }
@@ -118,14 +127,29 @@ impl Serializer for Rec {
     fn serialize_unit_struct(self, n: &'static str) -> Result<(), SerErr> {
         self.call(format!("serialize_unit_struct({})", n))
     }
-    fn serialize_unit_variant(self, n: &'static str, i: u32, v: &'static str) -> Result<(), SerErr> {
+    fn serialize_unit_variant(
+        self,
+        n: &'static str,
+        i: u32,
+        v: &'static str,
+    ) -> Result<(), SerErr> {
         self.call(format!("serialize_unit_variant({},{},{})", n, i, v))
     }
-    fn serialize_newtype_struct<T: ?Sized + Serialize>(self, n: &'static str, v: &T) -> Result<(), SerErr> {
+    fn serialize_newtype_struct<T: ?Sized + Serialize>(
+        self,
+        n: &'static str,
+        v: &T,
+    ) -> Result<(), SerErr> {
         self.call(format!("serialize_newtype_struct({})", n))?;
         v.serialize(self)
     }
-    fn serialize_newtype_variant<T: ?Sized + Serialize>(self, n: &'static str, i: u32, var: &'static str, v: &T) -> Result<(), SerErr> {
+    fn serialize_newtype_variant<T: ?Sized + Serialize>(
+        self,
+        n: &'static str,
+        i: u32,
+        var: &'static str,
+        v: &T,
+    ) -> Result<(), SerErr> {
         self.call(format!("serialize_newtype_variant({},{},{})", n, i, var))?;
         v.serialize(self)
     }
@@ -141,8 +165,17 @@ impl Serializer for Rec {
         self.call(format!("serialize_tuple_struct({},{})", n, len))?;
         Ok(self)
     }
-    fn serialize_tuple_variant(self, n: &'static str, i: u32, v: &'static str, len: usize) -> Result<Rec, SerErr> {
-        self.call(format!("serialize_tuple_variant({},{},{},{})", n, i, v, len))?;
+    fn serialize_tuple_variant(
+        self,
+        n: &'static str,
+        i: u32,
+        v: &'static str,
+        len: usize,
+    ) -> Result<Rec, SerErr> {
+        self.call(format!(
+            "serialize_tuple_variant({},{},{},{})",
+            n, i, v, len
+        ))?;
         Ok(self)
     }
     fn serialize_map(self, len: Option<usize>) -> Result<Rec, SerErr> {
@@ -153,8 +186,17 @@ impl Serializer for Rec {
         self.call(format!("serialize_struct({},{})", n, len))?;
         Ok(self)
     }
-    fn serialize_struct_variant(self, n: &'static str, i: u32, v: &'static str, len: usize) -> Result<Rec, SerErr> {
-        self.call(format!("serialize_struct_variant({},{},{},{})", n, i, v, len))?;
+    fn serialize_struct_variant(
+        self,
+        n: &'static str,
+        i: u32,
+        v: &'static str,
+        len: usize,
+    ) -> Result<Rec, SerErr> {
+        self.call(format!(
+            "serialize_struct_variant({},{},{},{})",
+            n, i, v, len
+        ))?;
         Ok(self)
     }
     fn is_human_readable(&self) -> bool {
@@ -224,7 +266,11 @@ impl SerializeMap for Rec {
 impl SerializeStruct for Rec {
     type Ok = ();
     type Error = SerErr;
-    fn serialize_field<T: ?Sized + Serialize>(&mut self, k: &'static str, v: &T) -> Result<(), SerErr> {
+    fn serialize_field<T: ?Sized + Serialize>(
+        &mut self,
+        k: &'static str,
+        v: &T,
+    ) -> Result<(), SerErr> {
         self.call(format!("struct.field({})", k))?;
         v.serialize(self.clone())
     }
@@ -235,7 +281,11 @@ impl SerializeStruct for Rec {
 impl SerializeStructVariant for Rec {
     type Ok = ();
     type Error = SerErr;
-    fn serialize_field<T: ?Sized + Serialize>(&mut self, k: &'static str, v: &T) -> Result<(), SerErr> {
+    fn serialize_field<T: ?Sized + Serialize>(
+        &mut self,
+        k: &'static str,
+        v: &T,
+    ) -> Result<(), SerErr> {
         self.call(format!("struct_variant.field({})", k))?;
         v.serialize(self.clone())
     }
@@ -279,8 +329,12 @@ impl<'de> Deserialize<'de> for Pt {
                 write!(f, "a Pt as a sequence")
             }
             fn visit_seq<A: SeqAccess<'de>>(self, mut a: A) -> Result<Pt, A::Error> {
-                let x = a.next_element::<i32>()?.ok_or_else(|| de::Error::invalid_length(0, &self))?;
-                let y = a.next_element::<String>()?.ok_or_else(|| de::Error::invalid_length(1, &self))?;
+                let x = a
+                    .next_element::<i32>()?
+                    .ok_or_else(|| de::Error::invalid_length(0, &self))?;
+                let y = a
+                    .next_element::<String>()?
+                    .ok_or_else(|| de::Error::invalid_length(1, &self))?;
                 let mut tags = Vec::new();
                 while let Some(t) = a.next_element::<u16>()? {
                     tags.push(t);
@@ -352,7 +406,9 @@ impl Serialize for Nest {
 fn gen_pt(r: &mut Rng) -> Pt {
     Pt {
         x: r.next() as i32,
-        y: (0..r.below(6)).map(|_| (b'a' + r.below(26) as u8) as char).collect(),
+        y: (0..r.below(6))
+            .map(|_| (b'a' + r.below(26) as u8) as char)
+            .collect(),
         tags: (0..r.below(5)).map(|_| r.next() as u16).collect(),
     }
 }
@@ -363,14 +419,21 @@ fn gen_shape(r: &mut Rng) -> Shape {
         2 => Shape::Tup(r.next() as i16, "é∂".repeat(r.below(3))),
         _ => Shape::St {
             a: r.below(2) == 0,
-            b: if r.below(2) == 0 { None } else { Some(r.next() as u32) },
+            b: if r.below(2) == 0 {
+                None
+            } else {
+                Some(r.next() as u32)
+            },
         },
     }
 }
 fn gen_nest(r: &mut Rng) -> Nest {
     let mut m = BTreeMap::new();
     for _ in 0..r.below(4) {
-        m.insert(format!("k{}", r.below(50)), (r.next() as u8, r.next() as i64));
+        m.insert(
+            format!("k{}", r.below(50)),
+            (r.next() as u8, r.next() as i64),
+        );
     }
     Nest {
         p: gen_pt(r),
@@ -387,7 +450,13 @@ fn ser_case<T: Serialize + Clone>(name: &str, v: &T, st: &mut SdStats) -> R {
     let a2 = a.clone();
     let u = UniqueArc::new(v.clone());
     let (r0, t0) = trace(v, 0);
-    ensure!(r0.is_ok(), "", "harness", "{}: reference serialisation failed", name);
+    ensure!(
+        r0.is_ok(),
+        "",
+        "harness",
+        "{}: reference serialisation failed",
+        name
+    );
     for k in 0..=t0.len() + 1 {
         let (rv, tv) = trace(v, k);
         let (ra, ta) = trace(&a, k);
@@ -416,14 +485,27 @@ fn ser_case<T: Serialize + Clone>(name: &str, v: &T, st: &mut SdStats) -> R {
             rv,
             tv
         );
-        ensure!(Arc::count(&a) == 2, "C17,C04", "serde", "{}: serialising changed the count to {}", name, Arc::count(&a));
+        ensure!(
+            Arc::count(&a) == 2,
+            "C17,C04",
+            "serde",
+            "{}: serialising changed the count to {}",
+            name,
+            Arc::count(&a)
+        );
         st.counts.bump("serde.ser_runs");
     }
     drop(a2);
     st.counts.add("serde.ser_calls_compared", t0.len() as u64);
-    st.cases.insert(hash64(&format!("ser|{}|{}", name, t0.len())));
+    st.cases
+        .insert(hash64(&format!("ser|{}|{}", name, t0.len())));
     if st.sample.len() < 4 {
-        st.sample.push(format!("{}: {} serializer calls, e.g. {:?}", name, t0.len(), &t0[..t0.len().min(6)]));
+        st.sample.push(format!(
+            "{}: {} serializer calls, e.g. {:?}",
+            name,
+            t0.len(),
+            &t0[..t0.len().min(6)]
+        ));
     }
     Ok(())
 }
@@ -443,10 +525,16 @@ struct ScriptSeq {
 }
 impl<'de> SeqAccess<'de> for ScriptSeq {
     type Error = SerErr;
-    fn next_element_seed<T: DeserializeSeed<'de>>(&mut self, seed: T) -> Result<Option<T::Value>, SerErr> {
+    fn next_element_seed<T: DeserializeSeed<'de>>(
+        &mut self,
+        seed: T,
+    ) -> Result<Option<T::Value>, SerErr> {
         self.n += 1;
         if self.fail_at != 0 && self.n == self.fail_at {
-            return Err(SerErr(format!("injected failure at deserializer access {}", self.n)));
+            return Err(SerErr(format!(
+                "injected failure at deserializer access {}",
+                self.n
+            )));
         }
         match self.items.next() {
             Some(v) => seed.deserialize(v.into_deserializer()).map(Some),
@@ -480,7 +568,10 @@ struct MapAcc {
 }
 impl<'de> MapAccess<'de> for MapAcc {
     type Error = SerErr;
-    fn next_key_seed<K: DeserializeSeed<'de>>(&mut self, seed: K) -> Result<Option<K::Value>, SerErr> {
+    fn next_key_seed<K: DeserializeSeed<'de>>(
+        &mut self,
+        seed: K,
+    ) -> Result<Option<K::Value>, SerErr> {
         self.n += 1;
         if self.fail_at != 0 && self.n == self.fail_at {
             return Err(SerErr(format!("injected failure at map access {}", self.n)));
@@ -528,12 +619,36 @@ where
     let base = shadow::tracked(|| T::deserialize(mk()));
     let blocks_value = shadow::live_count();
     let got_a: Result<Arc<T>, D::Error> = shadow::tracked(|| Arc::<T>::deserialize(mk()));
-    let got_u: Result<UniqueArc<T>, D::Error> = shadow::tracked(|| UniqueArc::<T>::deserialize(mk()));
+    let got_u: Result<UniqueArc<T>, D::Error> =
+        shadow::tracked(|| UniqueArc::<T>::deserialize(mk()));
     match (&base, &got_a, &got_u) {
         (Ok(v), Ok(a), Ok(u)) => {
-            ensure!(**a == *v, "C17", "serde", "{}: Arc<T> deserialised to {:?}, T alone to {:?}", name, &**a, v);
-            ensure!(**u == *v, "C17", "serde", "{}: UniqueArc<T> deserialised to {:?}, T alone to {:?}", name, &**u, v);
-            ensure!(Arc::count(a) == 1 && a.is_unique(), "C17", "serde", "{}: the deserialised Arc is not a sole owner (count {})", name, Arc::count(a));
+            ensure!(
+                **a == *v,
+                "C17",
+                "serde",
+                "{}: Arc<T> deserialised to {:?}, T alone to {:?}",
+                name,
+                &**a,
+                v
+            );
+            ensure!(
+                **u == *v,
+                "C17",
+                "serde",
+                "{}: UniqueArc<T> deserialised to {:?}, T alone to {:?}",
+                name,
+                &**u,
+                v
+            );
+            ensure!(
+                Arc::count(a) == 1 && a.is_unique(),
+                "C17",
+                "serde",
+                "{}: the deserialised Arc is not a sole owner (count {})",
+                name,
+                Arc::count(a)
+            );
             if shadow::active() {
                 // one value's worth of blocks per result, plus one Arc block for each handle
                 ensure!(
@@ -549,14 +664,29 @@ where
             st.counts.bump("serde.de_ok");
         }
         (Err(e), Err(ea), Err(eu)) => {
-            ensure!(ea == e && eu == e, "C17", "serde", "{}: error changed on the way: Arc {:?}, UniqueArc {:?}, value {:?}", name, ea, eu, e);
+            ensure!(
+                ea == e && eu == e,
+                "C17",
+                "serde",
+                "{}: error changed on the way: Arc {:?}, UniqueArc {:?}, value {:?}",
+                name,
+                ea,
+                eu,
+                e
+            );
             st.counts.bump("serde.de_err");
         }
         _ => {
             return viol(
                 "C17",
                 "serde",
-                format!("{}: T alone gives {:?} but Arc<T> gives {:?} and UniqueArc<T> gives {:?}", name, base.as_ref().map(|_| "Ok"), got_a.as_ref().map(|_| "Ok"), got_u.as_ref().map(|_| "Ok")),
+                format!(
+                    "{}: T alone gives {:?} but Arc<T> gives {:?} and UniqueArc<T> gives {:?}",
+                    name,
+                    base.as_ref().map(|_| "Ok"),
+                    got_a.as_ref().map(|_| "Ok"),
+                    got_u.as_ref().map(|_| "Ok")
+                ),
             );
         }
     }
@@ -567,16 +697,27 @@ where
     });
     if shadow::active() {
         if let Some(x) = shadow::take_findings().first() {
-            return viol("C17", "serde", format!("{}: allocator monitor: {:?}", name, x));
+            return viol(
+                "C17",
+                "serde",
+                format!("{}: allocator monitor: {:?}", name, x),
+            );
         }
-        ensure!(shadow::live_count() == 0, "C17", "serde", "{}: {} blocks left behind by deserialisation", name, shadow::live_count());
+        ensure!(
+            shadow::live_count() == 0,
+            "C17",
+            "serde",
+            "{}: {} blocks left behind by deserialisation",
+            name,
+            shadow::live_count()
+        );
     }
     st.counts.bump("serde.de_runs");
     st.cases.insert(hash64(&format!("de|{}", name)));
     Ok(())
 }
 
-pub fn run(seed: u64, n: usize, st: &mut SdStats) -> Vec<Viol> {
+pub fn run(seed: u64, n: usize, part: &str, st: &mut SdStats) -> Vec<Viol> {
     let mut out = Vec::new();
     let mut rng = Rng::new(seed);
     let mut go = |r: R, out: &mut Vec<Viol>| {
@@ -587,50 +728,206 @@ pub fn run(seed: u64, n: usize, st: &mut SdStats) -> Vec<Viol> {
         }
     };
     for i in 0..n {
-        go(ser_case("i32", &(rng.next() as i32), st), &mut out);
-        go(ser_case("u64", &rng.next(), st), &mut out);
-        go(ser_case("String", &format!("s{}é", rng.below(1000)), st), &mut out);
-        go(ser_case("(u8,String,bool)", &(rng.next() as u8, format!("t{}", i), i % 2 == 0), st), &mut out);
-        go(ser_case("Vec<u32>", &(0..rng.below(6)).map(|_| rng.next() as u32).collect::<Vec<u32>>(), st), &mut out);
-        go(ser_case("Option<i8>", &if i % 3 == 0 { None } else { Some(rng.next() as i8) }, st), &mut out);
-        let mut m = BTreeMap::new();
-        for _ in 0..rng.below(4) {
-            m.insert(format!("k{}", rng.below(9)), rng.next() as u16);
+        if part != "de" {
+            go(ser_case("i32", &(rng.next() as i32), st), &mut out);
+            go(ser_case("u64", &rng.next(), st), &mut out);
+            go(
+                ser_case("String", &format!("s{}é", rng.below(1000)), st),
+                &mut out,
+            );
+            go(
+                ser_case(
+                    "(u8,String,bool)",
+                    &(rng.next() as u8, format!("t{}", i), i % 2 == 0),
+                    st,
+                ),
+                &mut out,
+            );
+            go(
+                ser_case(
+                    "Vec<u32>",
+                    &(0..rng.below(6))
+                        .map(|_| rng.next() as u32)
+                        .collect::<Vec<u32>>(),
+                    st,
+                ),
+                &mut out,
+            );
+            go(
+                ser_case(
+                    "Option<i8>",
+                    &if i % 3 == 0 {
+                        None
+                    } else {
+                        Some(rng.next() as i8)
+                    },
+                    st,
+                ),
+                &mut out,
+            );
+            let mut m = BTreeMap::new();
+            for _ in 0..rng.below(4) {
+                m.insert(format!("k{}", rng.below(9)), rng.next() as u16);
+            }
+            go(ser_case("BTreeMap<String,u16>", &m, st), &mut out);
+            go(
+                ser_case("Pt(hand-written struct)", &gen_pt(&mut rng), st),
+                &mut out,
+            );
+            go(
+                ser_case("Shape(hand-written enum)", &gen_shape(&mut rng), st),
+                &mut out,
+            );
+            go(
+                ser_case("Nest(nested, is_human_readable)", &gen_nest(&mut rng), st),
+                &mut out,
+            );
+            go(
+                ser_case("Arc<Arc<Pt>>", &Arc::new(gen_pt(&mut rng)), st),
+                &mut out,
+            );
+            go(ser_case("()", &(), st), &mut out);
+            go(ser_case("f64", &(rng.next() as f64 / 7.0), st), &mut out);
         }
-        go(ser_case("BTreeMap<String,u16>", &m, st), &mut out);
-        go(ser_case("Pt(hand-written struct)", &gen_pt(&mut rng), st), &mut out);
-        go(ser_case("Shape(hand-written enum)", &gen_shape(&mut rng), st), &mut out);
-        go(ser_case("Nest(nested, is_human_readable)", &gen_nest(&mut rng), st), &mut out);
-        go(ser_case("Arc<Arc<Pt>>", &Arc::new(gen_pt(&mut rng)), st), &mut out);
-        go(ser_case("()", &(), st), &mut out);
-        go(ser_case("f64", &(rng.next() as f64 / 7.0), st), &mut out);
+        if part == "ser" {
+            continue;
+        }
 
         // deserialisation from serde's in-memory value deserializers
         let x = rng.next() as u32;
-        go(de_case::<u32, _, _>("u32 from U32Deserializer", || IntoDeserializer::<de::value::Error>::into_deserializer(x), st), &mut out);
-        go(de_case::<u8, _, _>("u8 from a possibly too large u32 (error path)", || IntoDeserializer::<de::value::Error>::into_deserializer(x % 400), st), &mut out);
+        go(
+            de_case::<u32, _, _>(
+                "u32 from U32Deserializer",
+                || IntoDeserializer::<de::value::Error>::into_deserializer(x),
+                st,
+            ),
+            &mut out,
+        );
+        go(
+            de_case::<u8, _, _>(
+                "u8 from a possibly too large u32 (error path)",
+                || IntoDeserializer::<de::value::Error>::into_deserializer(x % 400),
+                st,
+            ),
+            &mut out,
+        );
         let s = format!("str{}", rng.below(100));
-        go(de_case::<String, _, _>("String from StrDeserializer", || IntoDeserializer::<de::value::Error>::into_deserializer(s.as_str()), st), &mut out);
-        go(de_case::<u32, _, _>("u32 from a str (type error)", || IntoDeserializer::<de::value::Error>::into_deserializer(s.as_str()), st), &mut out);
-        let v: Vec<u32> = (0..rng.below(6)).map(|_| rng.next() as u32 % 70000).collect();
-        go(de_case::<Vec<u32>, _, _>("Vec<u32> from SeqDeserializer", || IntoDeserializer::<de::value::Error>::into_deserializer(v.clone()), st), &mut out);
-        go(de_case::<Vec<u16>, _, _>("Vec<u16> from a seq with possibly too large elements", || IntoDeserializer::<de::value::Error>::into_deserializer(v.clone()), st), &mut out);
-        go(de_case::<(u32, u32), _, _>("(u32,u32) from a seq of arbitrary length", || IntoDeserializer::<de::value::Error>::into_deserializer(v.clone()), st), &mut out);
-        let mm: BTreeMap<String, u32> = (0..rng.below(4)).map(|k| (format!("k{}", k), rng.next() as u32)).collect();
-        go(de_case::<BTreeMap<String, u32>, _, _>("BTreeMap from MapDeserializer", || IntoDeserializer::<de::value::Error>::into_deserializer(mm.clone()), st), &mut out);
-        go(de_case::<Option<u32>, _, _>("Option<u32> from a u32", || IntoDeserializer::<de::value::Error>::into_deserializer(x), st), &mut out);
+        go(
+            de_case::<String, _, _>(
+                "String from StrDeserializer",
+                || IntoDeserializer::<de::value::Error>::into_deserializer(s.as_str()),
+                st,
+            ),
+            &mut out,
+        );
+        go(
+            de_case::<u32, _, _>(
+                "u32 from a str (type error)",
+                || IntoDeserializer::<de::value::Error>::into_deserializer(s.as_str()),
+                st,
+            ),
+            &mut out,
+        );
+        let v: Vec<u32> = (0..rng.below(6))
+            .map(|_| rng.next() as u32 % 70000)
+            .collect();
+        go(
+            de_case::<Vec<u32>, _, _>(
+                "Vec<u32> from SeqDeserializer",
+                || IntoDeserializer::<de::value::Error>::into_deserializer(v.clone()),
+                st,
+            ),
+            &mut out,
+        );
+        go(
+            de_case::<Vec<u16>, _, _>(
+                "Vec<u16> from a seq with possibly too large elements",
+                || IntoDeserializer::<de::value::Error>::into_deserializer(v.clone()),
+                st,
+            ),
+            &mut out,
+        );
+        go(
+            de_case::<(u32, u32), _, _>(
+                "(u32,u32) from a seq of arbitrary length",
+                || IntoDeserializer::<de::value::Error>::into_deserializer(v.clone()),
+                st,
+            ),
+            &mut out,
+        );
+        let mm: BTreeMap<String, u32> = (0..rng.below(4))
+            .map(|k| (format!("k{}", k), rng.next() as u32))
+            .collect();
+        go(
+            de_case::<BTreeMap<String, u32>, _, _>(
+                "BTreeMap from MapDeserializer",
+                || IntoDeserializer::<de::value::Error>::into_deserializer(mm.clone()),
+                st,
+            ),
+            &mut out,
+        );
+        go(
+            de_case::<Option<u32>, _, _>(
+                "Option<u32> from a u32",
+                || IntoDeserializer::<de::value::Error>::into_deserializer(x),
+                st,
+            ),
+            &mut out,
+        );
         // scripted deserializers failing at every k-th access
         let items: Vec<u32> = (0..rng.below(5) as u32).map(|k| k * 3 + 1).collect();
         for k in 0..=items.len() + 2 {
             let it = items.clone();
-            go(de_case::<Vec<u32>, _, _>(&format!("Vec<u32> from a scripted seq failing at access {}", k), || ScriptDe { items: it.clone(), fail_at: k }, st), &mut out);
-            go(de_case::<Pt, _, _>(&format!("Pt(hand-written) from a scripted seq failing at access {}", k), || ScriptDe { items: it.clone(), fail_at: k }, st), &mut out);
+            go(
+                de_case::<Vec<u32>, _, _>(
+                    &format!("Vec<u32> from a scripted seq failing at access {}", k),
+                    || ScriptDe {
+                        items: it.clone(),
+                        fail_at: k,
+                    },
+                    st,
+                ),
+                &mut out,
+            );
+            go(
+                de_case::<Pt, _, _>(
+                    &format!(
+                        "Pt(hand-written) from a scripted seq failing at access {}",
+                        k
+                    ),
+                    || ScriptDe {
+                        items: it.clone(),
+                        fail_at: k,
+                    },
+                    st,
+                ),
+                &mut out,
+            );
         }
-        go(de_case::<Vec<u32>, _, _>("Vec<u32> from a deserializer failing before any access", || ScriptDe { items: vec![], fail_at: usize::MAX }, st), &mut out);
-        let pairs: Vec<(String, u32)> = (0..rng.below(4)).map(|k| (format!("k{}", k), k as u32)).collect();
+        go(
+            de_case::<Vec<u32>, _, _>(
+                "Vec<u32> from a deserializer failing before any access",
+                || ScriptDe {
+                    items: vec![],
+                    fail_at: usize::MAX,
+                },
+                st,
+            ),
+            &mut out,
+        );
+        let pairs: Vec<(String, u32)> = (0..rng.below(4))
+            .map(|k| (format!("k{}", k), k as u32))
+            .collect();
         for k in 0..=2 * pairs.len() + 2 {
             let p = pairs.clone();
-            go(de_case::<BTreeMap<String, u32>, _, _>(&format!("BTreeMap from a scripted map failing at access {}", k), || MapDe(p.clone(), k), st), &mut out);
+            go(
+                de_case::<BTreeMap<String, u32>, _, _>(
+                    &format!("BTreeMap from a scripted map failing at access {}", k),
+                    || MapDe(p.clone(), k),
+                    st,
+                ),
+                &mut out,
+            );
         }
     }
     out
